@@ -14,7 +14,7 @@ Record fobs := mkO {
 }.
 
 Record fcase := mkFC {
-  fc_hist : list (N * phase * option nat);       (* key, phase, fault *)
+  fc_hist : list (N * phase * option nat * bool); (* key, phase, fault, through the proxy driver? *)
   fc_obs : list fobs;
   fc_race : option (phase * phase * list bool);  (* on key 0, after the history *)
   fc_robs : list fobs
@@ -47,12 +47,12 @@ Definition cmp_thread (off : N) (t : thread) (c : cell) (o : fobs) : list N :=
   (if status_code (c_row c) =? o_status o then [] else [off + 4]) ++
   (if cnt_eqb (c_cnt c) (o_biz o) then [] else [off + 5]).
 
-Fixpoint check_hist (w : world) (h : list (N * phase * option nat)) (obs : list fobs) : world * list N :=
+Fixpoint check_hist (w : world) (h : list (N * phase * option nat * bool)) (obs : list fobs) : world * list N :=
   match h, obs with
   | [], [] => (w, [])
-  | (k, ph, f) :: h', o :: obs' =>
-      let '(t, _) := deliver1 (c_row (get w k)) ph f in
-      let w1 := apply_hop w (HDeliver k ph f) in
+  | (k, ph, f, drv) :: h', o :: obs' =>
+      let '(t, _) := if drv then deliver_drv (c_row (get w k)) ph f else deliver1 (c_row (get w k)) ph f in
+      let w1 := apply_dop w (if drv then DDrv k ph f else DApi (HDeliver k ph f)) in
       let '(w2, e) := check_hist w1 h' obs' in
       (w2, cmp_thread 0 t (get w1 k) o ++ e)
   | _, _ => (w, [6])
